@@ -16,7 +16,8 @@ DECIDES = ('(a) no assignment that can enable the D+/D- output drivers is live w
            'states classified by their (usbp, usbn, oe) outputs -- data 1 keeps the line state, data 0 toggles it, '
            'de-asserted oe leads through SE0, SE0, J to idle, first bit leaves idle-J to K; RxNRZIDecoder: data = '
            '~(dk ^ last), se0 = ~dj & ~dk; (e) bit order: TxShifter emits bit 0 and shifts right; RxShifter + pipeline '
-           'deliver the first received bit in bit 0; SYNC is seven 0s then a 1; (f) receive framing wiring. ')
+           'deliver the first received bit in bit 0; SYNC is seven 0s then a 1; the byte-accept strobe (o_get) is frozen while '
+           'the bit stuffer stalls, matching the ~stall gating at its consumer; (f) receive framing wiring. ')
 NOT_DECIDED = 'clock/data recovery within the USB clock tolerance (value/timing-level), FIFO crossing latency.'
 
 
@@ -145,6 +146,23 @@ def run(ctx):
     spb = tp.drivers('sp_bit', exact=True)
     ctx.ob('C25.sync', 'TxPipeline.sp_bit', len(spb) == 1 and spb[0].rhs.canon() == 'sync_pulse[0:1]', None,
            'sync bit is bit 0 of the walking-one register')
+    # ---------------------------------------------------------------- (e2) byte-accept strobe survives a stuff stall
+    # TxPipeline consumes shifter.o_get under ~stall (stall = a stuffed bit is being inserted) and enables the shifter
+    # with ~stall; so the shifter must only update o_get while enabled, otherwise a load that coincides with a stall
+    # is never reported and the byte is sent twice.
+    st = tp.drivers('self.o_data_strobe', exact=True)
+    ok = len(st) == 1 and st[0].rhs.canon() == 'self.i_oe & shifter.o_get & state_data & ~stall'
+    ctx.ob('C25.byte-accept', 'TxPipeline.o_data_strobe', ok, st[0].loc if st else None,
+           'a byte is reported accepted when the shifter fetched it, outside a stall: %s' % [q.fmt(d) for d in st])
+    en = tp.drivers('shifter.i_enable', exact=True)
+    sl = tp.drivers('stall', exact=True)
+    ok = len(en) == 1 and en[0].rhs.canon() == '~stall' and len(sl) == 1 and sl[0].rhs.canon() == 'bitstuff.o_stall'
+    ctx.ob('C25.byte-accept', 'TxPipeline.shifter.i_enable', ok, en[0].loc if en else None, 'the shifter is frozen exactly while the stuffer stalls')
+    og = ts.drivers('self.o_get', exact=True)
+    ok = len(og) == 1 and og[0].rhs.canon() == 'empty' and q.atoms(og[0]) == {('self.i_enable', True)}
+    ctx.ob('C25.byte-accept', 'TxShifter.o_get-frozen-while-stalled', ok, og[0].loc if og else None,
+           'o_get must be updated only while i_enable is high (it is consumed under ~stall, so a value produced during a '
+           'stall would be lost and the byte loaded twice): %s' % [q.fmt(d) for d in og])
     # ---------------------------------------------------------------- (f) receive framing
     want = {'self.rx_data': 'receiver.o_data_payload', 'self.rx_valid': 'receiver.o_data_strobe & receiver.o_pkt_in_progress',
             'self.rx_active': 'receiver.o_pkt_in_progress', 'self.rx_error': 'receiver.o_receive_error',
